@@ -230,9 +230,14 @@ def build_q(case):
         run(body)
 
     nat = _natives(case)
-    if nat is not None:
-        return qcircuit(inject_pulses=nat)(program)()
-    return qcircuit(program)()
+    fn = qcircuit(inject_pulses=nat)(program) if nat is not None else qcircuit(program)
+    first = fn()
+    # the decorated function is a program: calling it again builds the same circuit again
+    _SECOND[:] = [guard(fn, what="qsyntax (second call of the same decorated function)")]
+    return first
+
+
+_SECOND = []
 
 
 def named_prog(case, let_names, reg_name, wrap):
@@ -337,6 +342,9 @@ def check(case):
     st_, cq = guard(build_q, case, what="qsyntax")
     if st_ == "err":
         raise Violation("qsyntax-build-raised", f"{cq}\n{desc}")
+    st2, cq2 = _SECOND[0]
+    if st2 == "err" or not (cq2 == cq) or generate(cq2) != generate(cq):
+        raise Violation("qsyntax-second-call-differs", f"{cq2 if st2 == 'err' else generate(cq2)}\n--- first call:\n{generate(cq)}\n{desc}")
     let_names = list(cq.constants)
     fund = [r for r in cq.registers.values() if r.fundamental]
     if len(let_names) != len(case["lets"]) or len(fund) != 1:
